@@ -11,6 +11,8 @@ CONSTANTS N = 3
   G_CHAIN = TRUE
   G_GLOBDEPTH = FALSE
   G_WALKDEPTH = FALSE
+  G_FILTERTOP = TRUE
+  FSTREAM = FALSE
 INVARIANTS NoOverflow WorkBounded ChainBounded
 PROPERTY Termination
 CHECK_DEADLOCK FALSE
